@@ -1044,11 +1044,7 @@ func c05Embed(carrier, p string, pos int) string {
 
 func TestVerif_C05(t *testing.T) {
 	r := vrt.Begin(t, "C05", "exploration")
-	defer func() {
-		if !t.Failed() { // after r.ToolError the result file already holds the tool error; End would overwrite it
-			r.End()
-		}
-	}()
+	defer r.End()
 	scens := c05Scenarios()
 	if rp := r.Replay(); rp != nil {
 		var a c05Artefact
